@@ -705,7 +705,7 @@ def prob_settings(draw, kind: str, excl, used: List[str]):
 
 
 def _ops_strategy(n_blue: int, strong: List[int], lo: int, hi: int, idle_weight: int, allow_quiet: bool,
-                  reactive: bool = False):
+                  reactive: bool = False, sniper: bool = False):
     step = st.one_of(*([st.just(["s", 0])] * idle_weight),
                      *([st.just(["k"])] if reactive else []),
                      st.sampled_from(strong).map(lambda i: ["s", i]),
@@ -722,7 +722,7 @@ def _ops_strategy(n_blue: int, strong: List[int], lo: int, hi: int, idle_weight:
             n = draw(st.integers(lo, hi))
             if quiet and e == 0:
                 out.extend([["s", 0]] * n)
-            elif reactive and draw(st.integers(0, 2)) == 0:
+            elif sniper and draw(st.booleans()):
                 # "sniper" episode: the defender removes whatever the attacker installs, right after it appears, and is
                 # otherwise idle - requests aimed at the removed application come back "unreachable", not "failure"
                 out.extend(draw(st.lists(st.sampled_from([["k"], ["k"], ["k"], ["s", 0]]), min_size=n, max_size=n)))
@@ -789,8 +789,16 @@ def tap_case(draw, persona: str, max_steps: int = 60, slow_nets: bool = False, e
         settings["tap003"] = {"n_changes": draw(st.integers(0, 3)), "n_acls": draw(st.integers(1, 3))}
     bm = tap_blue_map(persona)
     strong = [i for i, a in enumerate(bm) if a["action"] in TAP_INTERFERE_ACTIONS]
-    case = {"fam": "tap", "persona": persona, "seed": draw(st.integers(0, 10_000)), "settings": settings,
-            "ops": draw(_ops_strategy(len(bm), strong, max(8, max_steps * 2 // 3), max_steps, 10, True, reactive=True))}
+    ops = draw(_ops_strategy(len(bm), strong, max(8, max_steps * 2 // 3), max_steps, 10, True, reactive=True,
+                             sniper=persona == "tap-001"))  # only tap-001 installs applications
+    if persona == "tap-001" and draw(st.integers(0, 3)) == 0:
+        # steered sub-family (measured: "unreachable" answers to red were near zero without it): a chain that reaches
+        # COMMAND_AND_CONTROL quickly against a defender that uninstalls what the attacker installs as soon as it appears
+        settings.update(frequency=1, variance=0, probs={name: 1 for name in P["prob_stages"]})
+        settings["start_step"] = max(1, min(settings["start_step"], 3))
+        settings["tap001"].update(nets=draw(st.sampled_from([[2], [0, 2], [4, 2]])), scan_attempts=20)
+        ops = [o if o[0] == "r" else draw(st.sampled_from([["k"], ["k"], ["k"], ["s", 0]])) for o in ops]
+    case = {"fam": "tap", "persona": persona, "seed": draw(st.integers(0, 10_000)), "settings": settings, "ops": ops}
     if used:
         case["excl"] = used
     return case
